@@ -30,9 +30,12 @@ type Spec struct {
 	Err    bool     // the reader fails after the pieces
 	// how the handler consumes the request body before answering:
 	// 0 = not at all, 1 = completely (ioutil.ReadAll), 2 = the first ReadN bytes (one io.ReadFull)
-	ReadBody int
-	ReadN    int
-	Verdict  int // 0 = BfeHandlerResponse with this spec; else the raw verdict to return (Close / Finish)
+	ReadBody   int
+	ReadN      int
+	Verdict    int // with HasVerdict: the raw verdict to return instead of a response (BfeHandlerClose / BfeHandlerFinish)
+	HasVerdict bool
+	Echo       bool // add "X-Req: <X-Verif-Id of the request the handler saw>" to the response
+	Proxy      bool // do nothing here: the request goes on to the backend
 }
 
 type pieceReader struct {
@@ -86,13 +89,16 @@ func (m *Mod) handleKey(req *bfe_basic.Request, key string) (int, *bfe_http.Resp
 	if s == nil {
 		return bfe_module.BfeHandlerGoOn, nil
 	}
+	if s.Proxy {
+		return bfe_module.BfeHandlerGoOn, nil
+	}
 	switch s.ReadBody {
 	case 1:
 		ioutil.ReadAll(req.HttpRequest.Body)
 	case 2:
 		io.ReadFull(req.HttpRequest.Body, make([]byte, s.ReadN))
 	}
-	if s.Verdict != 0 {
+	if s.HasVerdict {
 		return s.Verdict, nil
 	}
 	res := new(bfe_http.Response)
@@ -100,6 +106,9 @@ func (m *Mod) handleKey(req *bfe_basic.Request, key string) (int, *bfe_http.Resp
 	res.Header = make(bfe_http.Header)
 	for _, kv := range s.Header {
 		res.Header.Add(kv[0], kv[1])
+	}
+	if s.Echo {
+		res.Header.Add("X-Req", req.HttpRequest.Header.Get("X-Verif-Id"))
 	}
 	ps := make([][]byte, len(s.Pieces))
 	copy(ps, s.Pieces)
